@@ -1137,6 +1137,12 @@ func c09CKKS(ctx *core.RunCtx) *c09Scheme {
 					ld := bits.Len(uint(m - 1)) // sparse packing
 					q1.LogDimensions.Cols, q2.LogDimensions.Cols = ld, ld
 				}
+				if g.Next()%3 == 0 { // an encoding outside the NTT domain
+					q1.IsNTT, q2.IsNTT = false, false
+				}
+				if g.Next()%2 == 0 { // the receiver held something else
+					catalog.FillPoly(cp.RingQ(), q1.Value, g)
+				}
 				e1 := c09Exec(func() error { return eb.Encode(vals, q1) })
 				e2 := c09Exec(func() error { return ckks.NewEncoder(cp, 128).Encode(vals, q2) })
 				ctx.Count("oracle.encoder-twin", 1)
@@ -1146,7 +1152,7 @@ func c09CKKS(ctx *core.RunCtx) *c09Scheme {
 				}
 				if e1.kind == 0 {
 					if ok, w := eqPoly(cp.RingQ(), q1.Value, q2.Value); !ok {
-						ctx.Fail("result", "ckks|Encoder(prec=128).Encode|history", "Encode(%T of %d values, log-slots %d) on an arbitrary-precision encoder that encoded and decoded before differs from a new encoder: %s", vals, m, q1.LogDimensions.Cols, w)
+						ctx.Fail("result", "ckks|Encoder(prec=128).Encode|history", "Encode(%T of %d values, log-slots %d, NTT=%v) on an arbitrary-precision encoder that encoded and decoded before (into a plaintext that may have held another value) differs from a new encoder writing into a new plaintext: %s", vals, m, q1.LogDimensions.Cols, q1.IsNTT, w)
 						return false
 					}
 				}
